@@ -667,6 +667,7 @@ def metamorphic(ctx, post, r, rounds):
             ob = impl_run(post, case)
             hists.append(case)
             outs.append(ob[-1])
+            ctx.case(strip(case), nontrivial=True)
             ctx.count("metamorphic:" + mode)
             for what, detail in oracle_check(post, case, ob)[:1]:
                 bad.append((what, dict(detail, case=strip(case))))
@@ -688,6 +689,48 @@ def metamorphic(ctx, post, r, rounds):
                     break
         if len(bad) > 5:
             break
+    return bad
+
+
+def exhaustive_small(ctx, post):
+    """Every order (24) and every split into consecutive accumulate calls (8) of one data set of
+    four 2-coefficient vectors, chunks laid out alternately as (k, 2) along axis -1, (2, k) along
+    axis 0 or single vectors: all 192 histories must give the transform of the two-pass reference."""
+    import itertools
+
+    bad = []
+    vecs = [[3, -7], [-5, 2], [11, 2], [-1, -12]]
+    probe = dict(shape=[2, 2], k=0, nums=[4, -3, 0, 9], dtype="int16")
+    for norm_var in (True, False):
+        for perm in itertools.permutations(range(4)):
+            for cuts in range(8):
+                sizes, cur = [], 1
+                for b in range(3):
+                    if cuts >> b & 1:
+                        sizes.append(cur)
+                        cur = 1
+                    else:
+                        cur += 1
+                sizes.append(cur)
+                ops, i = [], 0
+                for j, k in enumerate(sizes):
+                    part = [vecs[q] for q in perm[i:i + k]]
+                    i += k
+                    if k == 1 and j % 2 == 0:
+                        ops.append(dict(op="acc", t=dict(shape=[2], k=0, nums=part[0], dtype="int16"), axis=-1))
+                    elif j % 2 == 0:
+                        ops.append(dict(op="acc", t=mk_tensor(part, [k, 2], 1, 0, "int16"), axis=-1))
+                    else:
+                        ops.append(dict(op="acc", t=mk_tensor(part, [2, k], 0, 0, "int16"), axis=0))
+                ops.append(dict(op="app", t=probe, axis=1, in_place=False))
+                case = dict(norm_var=norm_var, ops=ops, profile="exhaustive")
+                ctx.case(strip(case), nontrivial=True)
+                ctx.count("exhaustive-small")
+                b_ = oracle_check(post, case)
+                if b_:
+                    bad.append((b_[0][0], dict(b_[0][1], case=strip(case))))
+                    if len(bad) > 3:
+                        return bad
     return bad
 
 
@@ -776,6 +819,9 @@ def run(ctx):
         ctx.count("profile:" + c["profile"])
         for o in c["ops"]:
             ctx.count("op:" + o["op"])
+            if o["op"] == "app":
+                ctx.count("elements-compared", sum(1 for x in o.get("_tol_extra", []) if x != math.inf))
+                ctx.count("illcond-skipped", sum(1 for x in o.get("_tol_extra", []) if x == math.inf))
             if "t" in o:
                 ctx.count("dtype:" + o["t"]["dtype"])
                 ctx.count("ndim:%d" % len(o["t"]["shape"]))
@@ -805,6 +851,7 @@ def run(ctx):
             ctx.fail("property violated on the implementation (%s): %r" % (what, detail), dict(case=strip(small), detail=detail), kind="impl")
     ctx.log("oracle checked")
     mm = metamorphic(ctx, post, r, ctx.scale(400, 6000))
+    mm += exhaustive_small(ctx, post)
     ctx.log("metamorphic search done")
     for what, detail in mm[:5]:
         ctx.fail("property violated on the implementation (%s)" % what, detail, kind="impl")
